@@ -23,7 +23,8 @@ func init() {
 			"NOT decided (runtime relation over positions): consistent renaming beyond R4, declaration regrouping, re-wrapping / re-spacing of the Go code, blank lines inside patterns, context line versus '-'/'+' pair." +
 			" R9 each change is parsed and compiled on its own (no parse cache, no parser state, fresh compilers, no x.f = x.f[:0])." +
 			" R10 kept patch text is not a window into a reader's buffer (C03-R12)." +
-			" R11 both sides of a change read names by the same declarations. R7 also: patch lines reach the parsers untrimmed.",
+			" R11 both sides of a change read names by the same declarations. R7 also: patch lines reach the parsers untrimmed." +
+			" R13 no comparison in the elision finder has two operands that both derive from offsets/positions of the patch text.",
 		Trusted:     commonTrusted,
 		Assumptions: commonAssumptions,
 	})
@@ -50,6 +51,7 @@ func runC13(r *an.Run) {
 	// line) mean the same: the implicit leading elision is anchored at the patch start on both sides
 	c04ImplicitDots(r)
 	relabel(r, "R9-implicit-leading-and-trailing-elision", "R12-a-first-column-elision-is-the-implicit-one")
+	finderIgnoresSpacing(r, "R13-the-elision-finder-ignores-spacing")
 }
 
 func c13CommentsSkipped(r *an.Run) {
